@@ -16,12 +16,24 @@ def build_overlay_test(pkg_dir, overlay_files, out_bin, tags="verif", extra_over
     cmd = ["go", "test", "-c", "-vet=off", "-overlay", ov, "-tags", tags, "-o", out_bin]
     if race:
         cmd.append("-race")
+    cover_dir = os.environ.get("VERIF_COVER_DIR")
+    if cover_dir:
+        # coverage mode (bin/cover_report): which statements of the repository
+        # do the conformance drivers execute at all?
+        cmd += ["-cover", "-covermode=atomic", "-coverpkg",
+                "github.com/lightninglabs/neutrino/...,github.com/lightninglabs/neutrino/cache/..."]
     cmd.append(".")
     p = subprocess.run(cmd, cwd=pkg_dir, env=core.go_env(), stdout=subprocess.PIPE,
                        stderr=subprocess.STDOUT, text=True)
     if p.returncode != 0:
         raise core.MachineryError("driver build failed (this is a build failure of the harness or of "
                                   "the working tree):\n" + p.stdout[-4000:])
+    if cover_dir:
+        os.makedirs(cover_dir, exist_ok=True)
+        os.replace(out_bin, out_bin + ".real")
+        with open(out_bin, "w") as f:
+            f.write('#!/bin/sh\nexec "%s.real" "$@" -test.gocoverdir="%s"\n' % (out_bin, cover_dir))
+        os.chmod(out_bin, 0o755)
     return out_bin
 
 
